@@ -82,4 +82,29 @@ theorem C04_envelope_is_generated (db key value : Bytes) (version inc : Int) (op
 example : wireFmt b!"get_replicate_message" (wireEnv b!"t" b!"k" b!"two words" (-1) 0 0 []) = some b!"replicate t k -1 two words" := by
   decide +kernel
 
+/-! ### the lines printed inline by the arms of `replicate_request`, and the announcements -/
+
+theorem C04_wire_arm_formats :
+    Gen.wireArmFormats =
+      [(b!"create-db {} {} {}", [b!"name", b!"token", b!"strategy.to_string()"]),
+       (b!"replicate-snapshot {} {}", [b!"db_names.join(\"|\")", b!"reclaim_space"]),
+       (b!"election candidate {} {}", [b!"id", b!"node_name"]),
+       (b!"election active {}", [b!"node_name"]),
+       (b!"replicate-leave {}", [b!"name"]),
+       (b!"replicate-join {}", [b!"name"]),
+       (b!"set-primary {}", [b!"tcp_addr"]),
+       (b!"secoundary {}", [b!"name"])] := by decide +kernel
+
+/-- the i-th inline line, printed with the given argument texts -/
+def armFmt (i : Nat) (args : List Bytes) : Option Bytes := (Gen.wireArmFormats[i]?).map fun p => fmtWith p.1 args
+
+theorem C04_election_active_line_is_generated (name : Bytes) : armFmt 3 [name] = some (b!"election active " ++ name) := by
+  unfold armFmt; rw [C04_wire_arm_formats]; simp [fmtWith]
+theorem C04_leave_line_is_generated (name : Bytes) : armFmt 4 [name] = some (b!"replicate-leave " ++ name) := by
+  unfold armFmt; rw [C04_wire_arm_formats]; simp [fmtWith]
+theorem C04_join_line_is_generated (name : Bytes) : armFmt 5 [name] = some (b!"replicate-join " ++ name) := by
+  unfold armFmt; rw [C04_wire_arm_formats]; simp [fmtWith]
+theorem C04_set_primary_line_is_generated (name : Bytes) : armFmt 6 [name] = some (b!"set-primary " ++ name) := by
+  unfold armFmt; rw [C04_wire_arm_formats]; simp [fmtWith]
+
 end Nun
